@@ -61,7 +61,7 @@ def topo_structs(items):
     deps = {}
     for n, t in items:
         d = set()
-        for m in re.finditer(r'struct (\w+) (\w+)(\[\d+\])?;', t):
+        for m in re.finditer(r'struct (\w+) (\w+)(\[[^\]]*\])?;', t):
             if m.group(1) != n and m.group(1) in text: d.add(m.group(1))
         deps[n] = d
     out = []; state = {}
@@ -120,9 +120,13 @@ class Unit:
                     raise Cxx2cError('shape mismatch: %s has no loop %d' % (cn, o))
         out = [stdmap.VSTD_PRELUDE]
         all_structs = []
+        capdefs = []
         for k, s in structs:
+            for m in re.finditer(r'(#ifndef (VSTD_CAP_\w+)\n#define \2 VSTD_CAP_DEFAULT\n#endif)', s):
+                capdefs.append(m.group(1))
             for m in re.finditer(r'(struct (\w+) \{[^}]*\};)', s):
                 all_structs.append((m.group(2), m.group(1)))
+        out.extend(capdefs)
         for cn, v in em.struct_defs.items():
             if v is None: raise Cxx2cError('struct %s left incomplete' % cn)
             all_structs.append((cn, v[1]))
